@@ -315,13 +315,13 @@ func c18TransportDrain(c *core.Ctx) {
 			n++
 			c.Touch(u)
 			ok := allowed[u.Key]
-			if !ok && u.Parent != nil && u.Parent.Key == "transports.(*polling).write" {
+			if !ok && u.Owner() != nil && u.Owner().Key == "transports.(*polling).write" {
 				// the callback passed to DoWrite, on its err == nil edge
 				pn := paramName(u, 0)
 				ok = u.Graph().GuardedBy(e.Loc, nilGuard(false, func(x *core.Unit, ex ast.Expr) bool { return isLocal(x.Info(), ex, pn) }))
 				used := false
-				for _, cl := range u.Parent.Calls() {
-					if cl.Name == "DoWrite" && closureArg(u.Parent, cl, 3) == u {
+				for _, cl := range u.Owner().Calls() {
+					if cl.Name == "DoWrite" && closureArg(u.Owner(), cl, 3) == u {
 						used = true
 					}
 				}
